@@ -1,3 +1,4 @@
+import Nstd.Generated.CallbackBody
 import Nstd.Callback.LemmasTie
 /-
   Property C12, the tie by TRANSLATION.  `Nstd.Generated.CallbackBody` holds the bodies of
